@@ -195,9 +195,8 @@ class Check:
 
     def gate(self):
         bad = []
-        for f in list(COQ.rglob("*.v")):
-            if "/gen/" in str(f):
-                continue
+        listed = [l.strip() for l in (COQ / "_CoqProject").read_text().splitlines() if l.strip().endswith(".v")]
+        for f in [COQ / l for l in listed]:
             txt = strip_comments(f.read_text())
             for m in FORBIDDEN.finditer(txt):
                 bad.append(f"{f.relative_to(COQ)}: {m.group(0)}")
